@@ -57,7 +57,7 @@ pub mod server {
         let (rh, wh) = stream.split();
         let mut reader = FramedRead::new(rh, Socks5InitialRequestDecoder);
         reader.next().await.ok_or_else(|| anyhow!("connection closed during the SOCKS5 handshake"))??;
-        let mut reader = FramedRead::new(reader.into_inner(), Socks5CommandRequestDecoder);
+        let mut reader = reader.map_decoder(|_| Socks5CommandRequestDecoder);
         let mut writer = FramedWrite::new(wh, Socks5ServerEncoder);
         writer.send(Box::new(Socks5InitialResponse::new(Socks5AuthMethod::NoAuth))).await?;
         let command_request = reader.next().await.ok_or_else(|| anyhow!("connection closed during the SOCKS5 handshake"))??;
